@@ -126,3 +126,71 @@ theorem call_pending_none {I} (cands : List Nat → List SpecK)
     · split <;> rfl
 
 end Amoco.Dis
+
+namespace Amoco.Dis
+
+theorem firstHit_some {I} (dec : SpecK → Out I) :
+    ∀ (l : List SpecK) (s : SpecK) (o : Out I), firstHit dec l = some (s, o) → dec s = o ∧ s ∈ l
+  | [], _, _, h => by simp [firstHit] at h
+  | a :: l, s, o, h => by
+    simp only [firstHit] at h
+    split at h
+    · have := firstHit_some dec l s o h
+      exact ⟨this.1, List.mem_cons_of_mem _ this.2⟩
+    · rename_i o' _
+      simp only [Option.some.injEq, Prod.mk.injEq] at h
+      obtain ⟨rfl, rfl⟩ := h
+      exact ⟨rfl, List.mem_cons_self⟩
+
+/-- what `decBytes` puts into an accepted instruction's bytes. -/
+theorem decBytes_ok (accepts : SpecK → List Nat → Bool) (hook : SpecK → List Nat → Option Ins → HookOut)
+    (st : Option Ins) (bytes : List Nat) (s : SpecK) (i0 : Ins)
+    (h : decBytes accepts hook st bytes s = .ok i0) :
+    ∃ n, n ≤ bytes.length ∧ s.size / 8 ≤ n ∧ (s.pfx = .prefix → n = s.size / 8) ∧
+      i0.bytes = pendBytes st ++ bytes.take n := by
+  unfold decBytes at h
+  simp only at h
+  by_cases h1 : bytes.length < s.size / 8
+  · simp [h1] at h
+  · by_cases h2 : (!accepts s bytes) = true
+    · simp [h1, h2] at h
+    · simp only [h1, h2, ↓reduceIte] at h
+      cases hh : hook s bytes st with
+      | reject => simp [hh] at h
+      | raise e => simp [hh] at h
+      | ok tag extra =>
+        simp only [hh, Bool.false_eq_true, ↓reduceIte, Out.ok.injEq] at h
+        refine ⟨s.size / 8 + (if s.pfx == .prefix then 0 else min extra (bytes.length - s.size / 8)), ?_, ?_, ?_, ?_⟩
+        · split <;> omega
+        · omega
+        · intro hp; simp [hp]
+        · rw [← h]
+
+end Amoco.Dis
+
+namespace Amoco.Dis
+
+theorem firstHit_congr {I} (d1 d2 : SpecK → Out I) :
+    ∀ (l : List SpecK), (∀ s ∈ l, d1 s = d2 s) → firstHit d1 l = firstHit d2 l
+  | [], _ => rfl
+  | a :: l, h => by
+    simp only [firstHit, h a List.mem_cons_self]
+    rw [firstHit_congr d1 d2 l (fun s hs => h s (List.mem_cons_of_mem _ hs))]
+
+/-- scanning the whole list: if every spec gives the same outcome on two inputs (and on all their
+    common suffix positions, for the prefix recursion), the two calls give the same result. -/
+theorem scan_eq_of_dec_eq {I} (r : Bool) (S : List SpecK)
+    (dec : Option I → List Nat → SpecK → Out I) (xd : I → Option I) (b1 b2 : List Nat)
+    (h : ∀ k st s, s ∈ S → dec st (b1.drop k) s = dec st (b2.drop k) s) :
+    ∀ fuel k st, call r (fun _ => S) dec xd fuel st (b1.drop k) = call r (fun _ => S) dec xd fuel st (b2.drop k)
+  | 0, _, _ => rfl
+  | fuel+1, k, st => by
+    simp only [call]
+    rw [firstHit_congr _ _ S (fun s hs => h k st s hs)]
+    split <;> try rfl
+    split <;> try rfl
+    rename_i s _ _ _
+    rw [List.drop_drop, List.drop_drop]
+    exact scan_eq_of_dec_eq r S dec xd b1 b2 h fuel _ _
+
+end Amoco.Dis
